@@ -708,6 +708,223 @@ Proof.
       * reflexivity.
 Qed.
 
+(* ====================== a failing round ====================== *)
+
+Lemma simultaneous_elect_err : forall (s : mstate) e, cs <> [] ->
+  (k = TRandom -> script_ok s) ->
+  simultaneous_elect cfg t p prev s = inr e ->
+  exists el, incl (flat el) cs /\ (forall c, In c (flat el) -> t <= tally c bs) /\
+    transfer_all k (flat el) p d t s = inr e.
+Proof.
+  intros s e Hne Hscr H.
+  destruct (quota_groups_sem cand ceqb ceqb_spec p0 p prev Hctx t Hne)
+    as (el0 & rest & Hq & Hr & Hreach & Hun).
+  unfold STV.simultaneous_elect in H. unfold mbind at 1, mlift at 1 in H.
+  fold d r in Hq, Hr. fold bs in Hreach, Hun. change (remaining prev) with r in H.
+  change (escores prev) with d in H. rewrite Hq in H. cbn [ok] in H.
+  unfold mbind at 1, mlift at 1 in H. rewrite (bbfc_ok p Hwf) in H.
+  unfold ok at 1 in H. cbv beta iota in H. unfold mbind at 1 in H. fold k in H.
+  assert (Hin : incl (flat el0) cs).
+  { intros c Hc. apply (ctx_flat_in cand ceqb p0 p prev Hctx). fold r. rewrite Hr, (flat_app cand).
+    apply in_or_app. left. exact Hc. }
+  exists el0. split; [exact Hin|]. split; [exact Hreach|].
+  destruct (transfer_all k (flat el0) p d t s) as [[moved s1]|e'] eqn:Etr; [|injection H as ->; reflexivity].
+  exfalso.
+  assert (Hnd : NoDup (flat el0 ++ flat rest)).
+  { rewrite <- (flat_app cand), <- Hr. apply (ctx_flat_nd cand ceqb p0 p prev Hctx). }
+  assert (Hoth : set_diff (flat r) (flat el0) = flat rest).
+  { rewrite Hr, (flat_app cand). apply set_diff_app_l. exact Hnd. }
+  rewrite Hoth in H.
+  assert (Hsub : subsetb (flat rest) (cands p) = true).
+  { apply (Lib_rk.subsetb_incl cand ceqb ceqb_spec). intros c Hc.
+    apply (ctx_flat_in cand ceqb p0 p prev Hctx). fold r. rewrite Hr, (flat_app cand).
+    apply in_or_app. right. exact Hc. }
+  rewrite Hsub in H. cbn [negb] in H.
+  destruct (transfer_all_inv k _ p d t s s1 moved Etr) as (mvs & Htr & ->).
+  destruct (transfers_wf k p d t _ s s1 mvs Htr Hwf Hscr) as (Hmv & _ & _).
+  assert (HB : Forall (wf_stv_ballot cs) (concat mvs ++ concat (map (pile p) (flat rest)))).
+  { apply Forall_app. split; [apply concat_Forall; exact Hmv|apply piles_wf; exact Hwf]. }
+  rewrite (has_ranking_all cs _ HB) in H.
+  destruct (next_profile_ok cs (flat el0) _ (proj1 Hwf) HB) as [Hmk Hwfn].
+  unfold mbind, mlift in H. fold cs in H. rewrite Hmk in H. discriminate.
+Qed.
+
+Lemma single_elect_err : forall (s : mstate) e, cs <> [] ->
+  (k = TRandom -> script_ok s) ->
+  single_elect cfg t p prev s = inr e ->
+  exists g rest, r = g :: rest /\
+    (((2 <= length g)%nat /\
+      ((s_tiebreak cfg = None /\ e = EValue) \/
+       (exists kind, s_tiebreak cfg = Some kind /\ tiebreak_set g (Some p) kind s = inr e))) \/
+     (exists w s1, In w g /\ scr_suffix s s1 /\
+        do_transfer k w (lookup0 w d) (pile p w) t s1 = inr e)).
+Proof.
+  intros s e Hne Hscr H.
+  destruct (ctx_r_cons Hne) as (g & rest & Hr & Hgne & Hgnd & Hgin).
+  exists g, rest. split; [exact Hr|].
+  assert (Hrest_in : incl (flat rest) cs).
+  { intros c Hc. apply (ctx_flat_in cand ceqb p0 p prev Hctx). fold r. rewrite Hr.
+    unfold Core.flat. cbn [concat]. apply in_or_app. right. exact Hc. }
+  unfold STV.single_elect in H. unfold mbind at 1 in H. change (remaining prev) with r in H.
+  rewrite Hr, (elect_top_1_eq cand ceqb g rest (Some p) (s_tiebreak cfg) s Hgne) in H.
+  assert (Htail : forall w (rem : ranking) (tbs : list (cset * ranking)) s1, In w cs -> incl (flat rem) cs -> scr_suffix s s1 ->
+    (do! _ := mlift (ballots_by_first_check cand ceqb p) in
+     if negb (memb w (cands p)) then mfail EKey else
+     do! moved := do_transfer (s_transfer cfg) w (lookup0 w (escores prev)) (pile p w) t in
+     if negb (subsetb (flat rem) (cands p)) then mfail EKey else
+     do! np0 := mlift (mk_profile
+        (remove_cand_bs [w] true false (filter has_ranking (moved ++ concat (map (pile p) (flat rem)))))
+        (set_diff (cands p) (flat [[w]]))) in mret ([[w]], tbs, np0)) s1 = inr e ->
+    do_transfer k w (lookup0 w d) (pile p w) t s1 = inr e).
+  { intros w rem tbs s1 Hw Hrem Hsuf HT.
+    unfold mbind at 1, mlift at 1 in HT. rewrite (bbfc_ok p Hwf) in HT.
+    unfold ok at 1 in HT. cbv beta iota in HT.
+    rewrite (proj2 (memb_In w (cands p)) Hw) in HT. cbn [negb] in HT.
+    unfold mbind at 1 in HT. fold k d in HT.
+    destruct (do_transfer k w (lookup0 w d) (pile p w) t s1) as [[moved s2]|e'] eqn:Etr; [|injection HT as ->; reflexivity].
+    exfalso.
+    rewrite (proj2 (Lib_rk.subsetb_incl cand ceqb ceqb_spec (flat rem) (cands p)) Hrem) in HT.
+    cbn [negb] in HT.
+    assert (Hscr1 : k = TRandom -> script_ok s1).
+    { intros Hk. apply (script_ok_suffix cand s s1 Hsuf). apply Hscr. exact Hk. }
+    destruct (do_transfer_wf k w _ _ t s1 s2 moved cs Etr Hscr1 (pile_wf p w Hwf)) as [Hmv _].
+    assert (HB : Forall (wf_stv_ballot cs) (moved ++ concat (map (pile p) (flat rem)))).
+    { apply Forall_app. split; [exact Hmv|apply piles_wf; exact Hwf]. }
+    rewrite (has_ranking_all cs _ HB) in HT.
+    destruct (next_profile_ok cs [w] _ (proj1 Hwf) HB) as [Hmk Hwfn].
+    change (flat [[w]]) with [w] in HT.
+    unfold mbind, mlift in HT. fold cs in HT. rewrite Hmk in HT. discriminate. }
+  destruct (Nat.leb (length g) 1) eqn:El.
+  - apply Nat.leb_le in El. destruct g as [|w [|w2 g']]; [contradiction Hgne; reflexivity| |cbn in El; lia].
+    cbv beta iota in H. right. exists w, s. split; [left; reflexivity|]. split; [apply scr_suffix_refl|].
+    apply (Htail w rest [] s); [apply Hgin; left; reflexivity|exact Hrest_in|apply scr_suffix_refl|exact H].
+  - apply Nat.leb_gt in El.
+    destruct (s_tiebreak cfg) as [kind|] eqn:Etb.
+    + destruct (tiebreak_set g (Some p) kind s) as [[t0 s1]|e'] eqn:Etie.
+      * destruct (tiebreak_set_wf cand ceqb ceqb_spec g p kind s s1 t0 Hwf Hgnd Hgne Hgin Etie)
+          as (l0 & -> & Hperm).
+        destruct l0 as [|w l].
+        { exfalso. apply Hgne. apply Permutation_nil. exact Hperm. }
+        cbv beta iota in H. change (firstn 1 (singletons (w :: l))) with [[w]] in H.
+        change (skipn 1 (singletons (w :: l))) with (singletons l) in H.
+        assert (Hwg : In w g) by (eapply Permutation_in; [exact Hperm|left; reflexivity]).
+        assert (Hflat : flat (singletons l ++ rest) = l ++ flat rest).
+        { rewrite (flat_app cand), (flat_singletons cand). reflexivity. }
+        assert (Hrem : incl (flat (singletons l ++ rest)) cs).
+        { rewrite Hflat. intros c Hc. apply in_app_or in Hc. destruct Hc as [Hc|Hc].
+          - apply Hgin. eapply Permutation_in; [exact Hperm|right; exact Hc].
+          - apply Hrest_in. exact Hc. }
+        pose proof (tiebreak_set_suffix cand ceqb ceqb_spec g (Some p) kind s s1 _ Etie) as Hsuf.
+        right. exists w, s1. split; [exact Hwg|]. split; [exact Hsuf|].
+        apply (Htail w (singletons l ++ rest) [(g, singletons (w :: l))] s1);
+          [apply Hgin; exact Hwg|exact Hrem|exact Hsuf|exact H].
+      * injection H as <-. left. split; [lia|]. right. exists kind. split; [reflexivity|exact Etie].
+    + injection H as <-. left. split; [lia|]. left. split; reflexivity.
+Qed.
+
+Lemma pick_elim_err : forall (lowest : cset) (s : mstate) e,
+  NoDup lowest -> incl lowest (cands p0) -> lowest <> [] ->
+  pick_elim p0 lowest s = inr e ->
+  (2 <= length lowest)%nat /\ tiebreak_set lowest (Some p0) TBFirstPlace s = inr e.
+Proof.
+  intros lowest s e Hnd Hincl Hne H.
+  destruct lowest as [|a [|b rest]]; [contradiction Hne; reflexivity|discriminate|].
+  set (low := a :: b :: rest) in *.
+  assert (Hpe : pick_elim p0 low s =
+                (do! tb := tiebreak_set low (Some p0) TBFirstPlace in
+                 match rev tb with
+                 | (c :: _) :: _ => mret (c, [(low, tb)])
+                 | _ => mfail EIndex
+                 end) s) by reflexivity.
+  rewrite Hpe in H. clear Hpe. unfold mbind in H. split; [cbn [low length]; lia|].
+  destruct (tiebreak_set low (Some p0) TBFirstPlace s) as [[t0 s2]|e'] eqn:Etie; [|injection H as ->; reflexivity].
+  exfalso.
+  destruct (tiebreak_set_wf cand ceqb ceqb_spec low p0 TBFirstPlace s s2 t0
+              (ctx_p0 cand ceqb p0 p prev Hctx) Hnd Hne Hincl Etie) as (l0 & -> & Hperm).
+  rewrite (rev_singletons cand) in H.
+  destruct (rev l0) as [|c rl] eqn:Erev.
+  - apply Hne. apply Permutation_nil. rewrite <- (rev_involutive l0), Erev in Hperm. exact Hperm.
+  - discriminate.
+Qed.
+
+(* which errors a round can raise from a valid profile *)
+Theorem stv_step_err_inv : forall n (s : mstate) e,
+  (k = TRandom -> script_ok s) ->
+  stv_step cfg t p0 n p prev s = inr e ->
+  (* a tie for the single seat of a one-by-one election round that cannot be broken *)
+  ((exists c, In c cs /\ t <= tally c bs) /\ s_simul cfg = false /\
+   exists g rest, r = g :: rest /\ (2 <= length g)%nat /\
+     ((s_tiebreak cfg = None /\ e = EValue) \/
+      (exists kind, s_tiebreak cfg = Some kind /\ tiebreak_set g (Some p) kind s = inr e))) \/
+  (* the transfer of a winner's pile fails *)
+  (exists w s1, In w cs /\ t <= tally w bs /\ scr_suffix s s1 /\
+     do_transfer k w (lookup0 w d) (pile p w) t s1 = inr e) \/
+  (* the tie-break for elimination fails *)
+  ((forall c, In c cs -> tally c bs < t) /\
+   exists lowest, tiebreak_set lowest (Some p0) TBFirstPlace s = inr e) \/
+  (* nobody is left although seats remain to be filled (or too many are filled) *)
+  ((forall c, In c cs -> tally c bs < t) /\ e = EIndex /\ cs = [] /\ (s_m cfg - n <> 0)%Z).
+Proof.
+  intros n s e Hscr H.
+  destruct (above t d) as [|a0 l0] eqn:Ea.
+  - pose proof (proj1 (above_nil_iff cand ceqb ceqb_spec p0 p prev Hctx t) Ea) as Hnone.
+    fold cs bs in Hnone.
+    destruct (Z.eqb (Z.of_nat (length (cands p))) (s_m cfg - n)) eqn:En.
+    + rewrite (stv_step_default cand ceqb cfg t p0 n p prev s Ea En) in H. discriminate.
+    + rewrite (stv_step_elim cand ceqb cfg t p0 n p prev s Ea En) in H.
+      destruct (list_eq_dec (cand_eq_dec cand ceqb ceqb_spec) cs []) as [Ecs|Hne].
+      { right. right. right. split; [exact Hnone|].
+        destruct (ctx_d_nil cand ceqb p0 p prev Hctx Ecs) as [_ Hr1]. rewrite Hr1 in H.
+        cbn [rev app] in H. cbn in H. injection H as <-. split; [reflexivity|]. split; [exact Ecs|].
+        apply Z.eqb_neq in En. fold cs in En. rewrite Ecs in En. cbn in En. lia. }
+      destruct (ctx_r_last Hne) as (pre & low & Hr' & Hlnd & Hlin).
+      fold r in H. rewrite Hr', rev_app_distr in H. cbn [rev app] in H.
+      assert (Hlne : low <> []).
+      { pose proof (ctx_groups_ne cand ceqb p0 p prev Hctx Hne) as Hg. fold r in Hg. rewrite Hr' in Hg.
+        rewrite Forall_forall in Hg. apply Hg. apply in_or_app. right. left. reflexivity. }
+      assert (Hlin0 : incl low (cands p0)).
+      { intros c Hc. apply (ctx_sub cand ceqb p0 p prev Hctx). apply Hlin. exact Hc. }
+      destruct (pick_elim p0 low s) as [[[x tbs] s1]|e'] eqn:Epick.
+      * exfalso. destruct (remove_cand_prof_ok x) as [Hrm Hwfn]. rewrite Hrm in H.
+        destruct (fpv_state _ Hwfn) as [d' Hd']. rewrite Hd' in H. discriminate.
+      * injection H as <-. right. right. left. split; [exact Hnone|]. exists low.
+        apply (pick_elim_err low s e' Hlnd Hlin0 Hlne Epick).
+  - assert (Hab : above t d <> []) by (rewrite Ea; discriminate).
+    pose proof (proj1 (above_ne_iff cand ceqb ceqb_spec p0 p prev Hctx t) Hab) as Hsome.
+    fold cs bs in Hsome. destruct Hsome as (c0 & Hc0 & Hc0t).
+    assert (Hne : cs <> []) by (intros E; rewrite E in Hc0; destruct Hc0).
+    destruct (s_simul cfg) eqn:Esim.
+    + rewrite (stv_step_simul cand ceqb cfg t p0 n p prev s Hab Esim) in H.
+      destruct (simultaneous_elect cfg t p prev s) as [[[el np1] s1]|e'] eqn:Esel.
+      * exfalso.
+        destruct (simultaneous_elect_inv s s1 el np1 Hne Hscr Esel) as (_ & _ & _ & _ & _ & _ & _ & Hwfn).
+        destruct (fpv_state _ Hwfn) as [d' Hd']. rewrite Hd' in H. discriminate.
+      * injection H as <-. right. left.
+        destruct (simultaneous_elect_err s e' Hne Hscr Esel) as (el & Hin & Hreach & Herr).
+        destruct (transfer_all_err k _ p d t s e' Herr)
+          as [[_ (w & Hw & Hn)]|(pre & w & post & mvs & s1 & Hel & Htr & Hd)].
+        -- exfalso. apply Hn. apply Hin. exact Hw.
+        -- assert (Hw : In w (flat el)) by (rewrite Hel; apply in_or_app; right; left; reflexivity).
+           exists w, s1. split; [apply Hin; exact Hw|]. split; [apply Hreach; exact Hw|].
+           split; [|exact Hd]. apply (transfers_wf k p d t pre s s1 mvs Htr Hwf Hscr).
+    + rewrite (stv_step_single cand ceqb cfg t p0 n p prev s Hab Esim) in H.
+      destruct (single_elect cfg t p prev s) as [[[[el tbs] np1] s2]|e'] eqn:Esel.
+      * exfalso.
+        destruct (single_elect_inv s s2 el tbs np1 Hne Hscr Esel)
+          as (_ & _ & _ & _ & _ & _ & _ & _ & _ & _ & _ & _ & _ & Hwfn).
+        destruct (fpv_state _ Hwfn) as [d' Hd']. rewrite Hd' in H. discriminate.
+      * injection H as <-.
+        destruct (single_elect_err s e' Hne Hscr Esel) as (g & rest & Hr & [[Hlen Hcase]|(w & s1 & Hwg & Hsuf & Hd)]).
+        -- left. split; [exists c0; split; assumption|]. split; [reflexivity|].
+           exists g, rest. split; [exact Hr|]. split; [exact Hlen|exact Hcase].
+        -- right. left. exists w, s1.
+           assert (Hw : In w cs).
+           { apply (ctx_group_in cand ceqb p0 p prev Hctx g w); [fold r; rewrite Hr; left; reflexivity|exact Hwg]. }
+           split; [exact Hw|]. split; [|split; [exact Hsuf|exact Hd]].
+           eapply Qle_trans; [exact Hc0t|].
+           apply (ctx_first_max cand ceqb ceqb_spec p0 p prev Hctx g rest w c0 Hr Hwg Hc0).
+Qed.
+
 End Round.
 
 End WithCand.
